@@ -4,7 +4,7 @@ from collections import Counter
 ASSUMPTIONS = [
     "exploration, not proof: graphs, bond lengths, relabellings, generator states and histories are sampled from a seeded PRNG",
     "the numpy global generator is the only entropy source of vespr_layout (nx.fruchterman_reingold_layout without seed); the simulator sets or inherits its state and logs a digest of it",
-    "positions are never compared between relabellings (the statement does not promise equal coordinates), only the three facts: one finite position per node, bonded nodes apart, mean bond length equals the request (1e-7 relative)",
+    "positions are never compared between relabellings (the statement does not promise equal coordinates), only the three facts: one finite position per node, bonded nodes apart, mean bond length equals the request (1e-9 relative)",
     "real code: cgsmiles.graph_layout, graph_layout_utils, linalg_functions, the resolver for molecule inputs, networkx layouts, numpy, scipy; stubs: none (the RNG is real, its state is owned)",
 ]
 
@@ -42,6 +42,7 @@ def coverage(prop, executed, rejected, tier):
         "graphs_with_ez_annotations": int(total.get("has_ez", 0)),
         "nodes_total": int(total.get("nodes", 0)),
         "graph_kinds": {k[5:]: int(v) for k, v in sorted(total.items()) if k.startswith("kind:")},
+        "graphs_per_history": {k[18:]: int(v) for k, v in sorted(total.items()) if k.startswith("graphs_in_history:")},
         "op_histogram": {k[3:]: int(v) for k, v in sorted(total.items()) if k.startswith("op:")},
         "faults_armed_fired": {k: int(v) for k, v in sorted(total.items()) if k.startswith("fault:")},
         "simulated_time": "not applicable (the layout reads no clock)",
